@@ -25,25 +25,98 @@ ANG = "ampform.kinematics.angles"
 SLICES = {"Energy": "0", "FourMomentumX": "1", "FourMomentumY": "2", "FourMomentumZ": "3", "ThreeMomentum": "slice(1, None)"}
 
 
-def producers_of_adapter(ctx: Check, tree: Tree) -> list[str]:
-    fn = tree.func(ADAPTER)
-    out = []
-    for node in walk_function(fn.node):
-        if isinstance(node, ast.Call) and isinstance(node.func, ast.Attribute) and node.func.attr == "update" and node.args:
-            inner = node.args[0]
-            if isinstance(inner, ast.Name):
-                # `x = producer(...); out.update(x)`: follow the single reaching definition
-                from ..dataflow import RD
+def _merged_calls(tree: Tree, fn, rd, expr: ast.AST, seen: set) -> list[ast.Call]:
+    """Calls of package functions whose RESULT flows into the mapping ``expr`` as a whole: through local
+    names (every reaching definition), ``M.update(x)`` / ``M |= x``, ``{**a, **b}``, ``a | b``, ``dict(x)``,
+    ``x.copy()`` and conditional expressions.  (Single entries ``M[k] = v`` are stores, not merges.)"""
+    out: list[ast.Call] = []
+    if isinstance(expr, ast.Name):
+        for d in rd.reaching(expr):
+            if id(d) in seen:
+                continue
+            seen.add(id(d))
+            if d.kind == "assign" and isinstance(d.value, ast.AST) and d.index is None:
+                out += _merged_calls(tree, fn, rd, d.value, seen)
+            elif d.kind in {"store", "aug"}:
+                # a weak update of the mapping: what was merged before it stays merged
+                out += _merged_calls_of_update(tree, fn, rd, d, seen)
+        return out
+    if isinstance(expr, ast.Call):
+        callee = tree.callee(expr, fn)
+        if callee and callee in tree.funcs:
+            return [expr]
+        f = expr.func
+        if isinstance(f, ast.Name) and f.id in {"dict", "OrderedDict"} and len(expr.args) == 1:
+            return _merged_calls(tree, fn, rd, expr.args[0], seen)
+        if isinstance(f, ast.Attribute) and f.attr == "copy" and not expr.args:
+            return _merged_calls(tree, fn, rd, f.value, seen)
+        return out
+    if isinstance(expr, ast.Dict):
+        for k, v in zip(expr.keys, expr.values):
+            if k is None:
+                out += _merged_calls(tree, fn, rd, v, seen)
+        return out
+    if isinstance(expr, ast.BinOp) and isinstance(expr.op, ast.BitOr):
+        return _merged_calls(tree, fn, rd, expr.left, seen) + _merged_calls(tree, fn, rd, expr.right, seen)
+    if isinstance(expr, ast.IfExp):
+        return _merged_calls(tree, fn, rd, expr.body, seen) + _merged_calls(tree, fn, rd, expr.orelse, seen)
+    return out
 
-                defs = [d for d in RD(fn.node).uses(inner) if d.value is not None]
-                if len(defs) == 1 and isinstance(defs[0].value, ast.Call):
-                    inner = defs[0].value
-            if isinstance(inner, ast.Call):
-                callee = tree.callee(inner, fn)
-                if callee and callee in tree.funcs:
-                    out.append(callee)
+
+def _merged_calls_of_update(tree: Tree, fn, rd, d, seen: set) -> list[ast.Call]:
+    """What one weak update (`M.update(x)`, `M |= x`) merges into M (plus, transitively, the older updates)."""
+    out: list[ast.Call] = []
+    node = d.value if d.kind == "store" else d.node
+    if isinstance(node, ast.Call) and isinstance(node.func, ast.Attribute) and node.func.attr == "update":
+        for a in node.args:
+            out += _merged_calls(tree, fn, rd, a, seen)
+    elif isinstance(node, ast.AugAssign) and isinstance(node.op, ast.BitOr):
+        out += _merged_calls(tree, fn, rd, node.value, seen)
+    for older in d.deps:
+        if older.name == d.name and id(older) not in seen:
+            seen.add(id(older))
+            if older.kind == "assign" and isinstance(older.value, ast.AST) and older.index is None:
+                out += _merged_calls(tree, fn, rd, older.value, seen)
+            elif older.kind in {"store", "aug"}:
+                out += _merged_calls_of_update(tree, fn, rd, older, seen)
+    return out
+
+
+def producers_of_adapter(ctx: Check, tree: Tree) -> list[str]:
+    """The functions whose returned mapping ends up (as a whole) in the mapping returned by
+    HelicityAdapter.create_expressions - directly or through helpers that only forward / merge the
+    mappings of others (the data flow is followed into every package function on the way)."""
+    from ..dataflow import RD
+
+    out: list[str] = []
+    work = [ADAPTER]
+    visited: set[str] = set()
+    while work:
+        q = work.pop(0)
+        if q in visited:
+            continue
+        visited.add(q)
+        fn = tree.func(q)
+        rd = RD(fn.node)
+        # what flows into the returned mapping, and (the mapping may be parked in an attribute first) what
+        # any `M.update(x)` / `M |= x` of the function merges
+        roots = [ret.value for ret, _ in rd.returns if ret.value is not None]
+        for node in walk_function(fn.node, nested=False):
+            if isinstance(node, ast.Call) and isinstance(node.func, ast.Attribute) and node.func.attr == "update":
+                roots += node.args
+            elif isinstance(node, ast.AugAssign) and isinstance(node.op, ast.BitOr):
+                roots.append(node.value)
+        calls = {id(c): c for r in roots for c in _merged_calls(tree, fn, rd, r, set())}
+        for call in sorted(calls.values(), key=lambda c: (c.lineno, c.col_offset)):
+            callee = tree.callee(call, fn)
+            if callee not in out:
+                out.append(callee)
+            work.append(callee)
+    # a nested function of a producer is analysed together with it (check_prov)
+    out = [q for q in out if not any(q.startswith(o + ".") for o in out)]
+    fn = tree.func(ADAPTER)
     if len(out) < 2:
-        raise AnalysisError(f"{ADAPTER}: expected >= 2 producers merged with update(), found {out}")
+        raise AnalysisError(f"{ADAPTER}: expected >= 2 producers merged into the returned mapping, found {out}")
     # the merge loop iterates the registered topologies (a set): record the sink
     loops = [n for n in walk_function(fn.node) if isinstance(n, ast.For)]
     ctx.info("R-PROV", tree.loc(loops[0]) if loops else tree.loc(fn.node),
@@ -115,12 +188,86 @@ def check_definitions(ctx: Check, tree: Tree) -> None:
     ctx.verdict(ok, "R-TERM", f"{cls.qual}.evaluate", tree.loc(cls.node), "Theta(p) == acos(p_z / |ThreeMomentum(p)|)", None if ok else repr(got)[:200])
 
 
+def _merge_literals(parts: list[tuple]) -> list[tuple]:
+    out: list[tuple] = []
+    for p in parts:
+        if p[0] == "lit" and out and out[-1][0] == "lit":
+            out[-1] = ("lit", out[-1][1] + p[1])
+        elif p != ("lit", ""):
+            out.append(p)
+    return out
+
+
+def _stringified_iterable(e: ast.AST) -> ast.AST | None:
+    """X if ``e`` yields ``str(x)`` for every x of X in order: ``map(str, X)``, ``(str(i) for i in X)``,
+    ``[str(i) for i in X]``, ``[f"{i}" for i in X]``."""
+    if isinstance(e, ast.Call) and isinstance(e.func, ast.Name) and e.func.id == "map" and len(e.args) == 2 and not e.keywords \
+            and isinstance(e.args[0], ast.Name) and e.args[0].id == "str":
+        return e.args[1]
+    if isinstance(e, (ast.GeneratorExp, ast.ListComp)) and len(e.generators) == 1:
+        g = e.generators[0]
+        if g.ifs or g.is_async or not isinstance(g.target, ast.Name):
+            return None
+        if string_parts(e.elt) == [("str", g.target.id)]:
+            return g.iter
+    return None
+
+
+def string_parts(e: ast.AST) -> list[tuple] | None:
+    """A str-valued expression as the concatenation it denotes, whatever it is spelled with (f-string,
+    ``+``, ``str()``, ``sep.join`` over ``map(str, X)`` or a comprehension): a list of pieces
+    ("lit", text) | ("str", <source of x>) for str(x) | ("join", sep, <source of X>) for sep.join(str(x) for x in X).
+    None if the expression is not of that kind."""
+    if isinstance(e, ast.Constant) and isinstance(e.value, str):
+        return [("lit", e.value)]
+    if isinstance(e, ast.JoinedStr):
+        parts: list[tuple] = []
+        for v in e.values:
+            if isinstance(v, ast.Constant):
+                parts.append(("lit", str(v.value)))
+            elif isinstance(v, ast.FormattedValue) and v.format_spec is None and v.conversion in (-1, 115):
+                parts += _parts_of_str(v.value)
+            else:
+                return None
+        return _merge_literals(parts)
+    if isinstance(e, ast.BinOp) and isinstance(e.op, ast.Add):
+        left, right = string_parts(e.left), string_parts(e.right)
+        if left is None or right is None:
+            return None
+        return _merge_literals(left + right)
+    if isinstance(e, ast.Call) and not e.keywords and len(e.args) == 1:
+        f = e.func
+        if isinstance(f, ast.Attribute) and f.attr == "join" and isinstance(f.value, ast.Constant) and isinstance(f.value.value, str):
+            src = _stringified_iterable(e.args[0])
+            if src is not None:
+                return [("join", f.value.value, unparse(src).replace(" ", ""))]
+            return None
+        if isinstance(f, ast.Name) and f.id == "str":
+            return _parts_of_str(e.args[0])
+    return None
+
+
+def _parts_of_str(x: ast.AST) -> list[tuple]:
+    """Pieces of ``str(x)`` / ``f"{x}"``: a string expression is its own str()."""
+    inner = string_parts(x)
+    if inner is not None:
+        return inner
+    return [("str", unparse(x).replace(" ", ""))]
+
+
 def check_mass_naming(ctx: Check, tree: Tree) -> None:
     fn = tree.func(f"{LOR}::get_invariant_mass_symbol")
     inl = Inliner(fn.node)
     ret = next(r for r in walk_function(fn.node) if isinstance(r, ast.Return))
-    txt = unparse(inl.expr(ret.value)).replace(" ", "")
-    ok = "sorted(determine_attached_final_state(topology,state_id))" in txt and txt.startswith("sp.Symbol(f'm_{") and "nonnegative=True" in txt  # state_id/topology are parameters
+    val = inl.expr(ret.value)
+    txt = unparse(val).replace(" ", "")
+    ok = False
+    if isinstance(val, ast.Call) and tree.resolve(fn.module, val.func, fn) == "sympy.Symbol" and len(val.args) == 1 and len(fn.params) >= 2:
+        topo, state = fn.params[:2]
+        name = string_parts(val.args[0])
+        kw = {k.arg: k.value for k in val.keywords}
+        ok = (name == [("lit", "m_"), ("join", "", f"sorted(determine_attached_final_state({topo},{state}))")]
+              and isinstance(kw.get("nonnegative"), ast.Constant) and kw["nonnegative"].value is True)
     ctx.verdict(ok, "R-TERM", f"{fn.qual}::name", tree.loc(fn.node),
                 "get_invariant_mass_symbol: name = 'm_' + sorted attached final-state ids of that state, nonnegative", None if ok else txt[:200])
     cm = tree.func(f"{LOR}::compute_invariant_masses")
@@ -393,7 +540,7 @@ def run(ctx: Check, tree: Tree) -> None:
     ]
     ctx.not_decided += ["agreement with an independent boost-and-rotate implementation on events (numerical); the matrices BoostZMatrix/RotationY/Z themselves are decided under C08"]
     ctx.assumptions += ["qrules Topology.get_originating_final_state_edge_ids returns the final-state edges below a node"]
-    producers = producers_of_adapter(ctx, tree)
+    producers = ctx.section(producers_of_adapter, ctx, tree) or []
     ctx.section(check_prov, ctx, tree, producers, min_stores=5)
     ctx.section(check_slices, ctx, tree)
     ctx.section(check_definitions, ctx, tree)
